@@ -155,44 +155,56 @@ Definition lst_like (v : value) : bool :=
   | _ => false
   end.
 
-(* G8: the shapes of a local symbol table on which the reader and Bin/SpecBin.v are known to agree; one conjunct
-   per excluded shape:
-   - every field name of the table struct has known text (the reader fails on a field name without text),
-   - at most one field named symbols and at most one named imports (the reader fails on a repetition, SpecBin
-     takes the first),
-   - the entries of a symbols list are strings (the reader gives any other entry the empty text, SpecBin a slot
-     of unknown text),
-   - an imports list holds no import structs (there is no catalog: the reader fails on an import without a usable
-     max_id, on a version beyond int32, on a field name without text, and takes the last of repeated fields;
-     SpecBin ignores such imports or takes the first),
-   - the resulting table has fewer than 2^63 symbols. *)
+(* G8: the shapes of a local symbol table that Bin/SpecBin.v accepts and on which the reader is known to deviate from
+   it or to have a limit; one conjunct per shape:
+   - every field name of the table struct and of every import struct has known text (the reader fails on a field
+     name without text: known finding C10/field-unknown-text-error),
+   - the entries of a symbols list are strings (the reader gives any other entry the empty text: known finding
+     C10/symbols-nonstring-empty-text),
+   - an import struct has at most one field named name, one named version and one named max_id (of repeated fields
+     the reader takes the last, SpecBin the first),
+   - an int version of an import lies within int32 and an int max_id within int64 (reader limits; the reader checks
+     them even for an import it then ignores),
+   - the resulting table has fewer than 2^63 symbols (limit; covers known finding C10/maxid-overflow). *)
 Definition names_known (fs : list (symv * value)) : bool :=
   forallb (fun p => match fst p with SymText _ => true | SymSid _ => false end) fs.
-Definition count_field (fs : list (symv * value)) (name : string) : nat :=
-  length (filter (fun p => field_is (fst p) name) fs).
 Definition symbols_ok (v : option value) : bool :=
   match option_map strip_ann v with
   | Some (VList l) => forallb (fun x => match strip_ann x with VString _ => true | _ => false end) l
   | _ => true
   end.
-Definition imports_ok (v : option value) : bool :=
-  match option_map strip_ann v with
-  | Some (VList l) => forallb (fun x => match strip_ann x with VStruct _ => false | _ => true end) l
+Definition int_within (v : option value) (lo hi : Z) : bool :=
+  match option_map strip_ann v with Some (VInt z) => (lo <=? z)%Z && (z <=? hi)%Z | _ => true end.
+Definition import_ok (d : value) : bool :=
+  match strip_ann d with
+  | VStruct fs =>
+    names_known fs
+    && (count_field fs "name" <=? 1)%nat && (count_field fs "version" <=? 1)%nat && (count_field fs "max_id" <=? 1)%nat
+    && int_within (find_field fs "version") (-2147483648) 2147483647
+    && int_within (find_field fs "max_id") (-9223372036854775808) 9223372036854775807
   | _ => true
   end.
-Definition lst_ok (ctx : symctx) (fs : list (symv * value)) : bool :=
+Definition imports_ok (v : option value) : bool :=
+  match option_map strip_ann v with
+  | Some (VList l) => forallb import_ok l
+  | _ => true
+  end.
+Definition lst_ok (fs : list (symv * value)) (ctx' : symctx) : bool :=
   names_known fs
-  && (count_field fs "symbols" <=? 1)%nat && (count_field fs "imports" <=? 1)%nat
   && symbols_ok (find_field fs "symbols")
   && imports_ok (find_field fs "imports")
-  && (N.of_nat (length (apply_lst ctx fs)) <? two63).
+  && (ctx_size ctx' <? two63).
 
-(* what a top-level value is: None = outside the limits, Some None = a user value, Some (Some ctx') = a local
-   symbol table, with the context it installs *)
+(* what a top-level value is: None = invalid or outside the limits, Some None = a user value, Some (Some ctx') =
+   a local symbol table, with the context it installs *)
 Definition lst_gate (ctx : symctx) (v : value) : option (option symctx) :=
   if lst_like v then
     match is_lst v with
-    | Some fs => if lst_ok ctx fs then Some (Some (apply_lst ctx fs)) else None
+    | Some fs =>
+      match apply_lst ctx fs with
+      | Some ctx' => if lst_ok fs ctx' then Some (Some ctx') else None
+      | None => None
+      end
     | None => None                          (* G7: $ion_symbol_table::null.struct *)
     end
   else Some None.
